@@ -19,6 +19,13 @@ func c11Gen(g *G) {
 	g.Emit("c11.run o,o g0+1;w2;r0/2000;r1/2000;w4;a0;a1", "burst-same-salt")
 	g.Emit("c11.run o,vl,b g0+1+2;w3;c(r0/2000,r1/2000,r2/2000);w6;a2;a0;a1", "burst-same-salt")
 	g.Emit("c11.run o,o ycq:1500:2;g0+1;w2;r1/2000;r0/2000;w4;a1;a0", "burst-same-salt")
+	// the rotation also rejects a msgs_ack the client wrote while an ACCEPTED request is still waiting: only the
+	// named message is concerned, the accepted request is not sent again; the session store refuses to write
+	// the new salt (the rotation is adopted all the same, the rejected request repeated under the new salt)
+	g.Emit("c11.run o,o g0+1;w2;a1;W;rk0/2000;s2000;a0", "rotation-rejects-an-ack")
+	g.Emit("c11.run o,o,vl g0+1+2;w3;u;W;c(rk0/2000,r1/2000);w4;s1000;a2;a1;a0", "rotation-rejects-an-ack")
+	g.Emit("c11.run o g0;w1;fs:1;r0/2000;w2;a0", "store-refuses-the-salt")
+	g.Emit("c11.run o,o fs:2;g0+1;w2;r0/2000;r1/2000;w4;n2005;a0;a1", "store-refuses-the-salt")
 	nb := g.N(20, 400)
 	for i := 0; i < nb; i++ {
 		k := 2 + r.Intn(5)
